@@ -35,6 +35,10 @@ func VerifHarness_C16_connect_twice() {
 	vAssert(vMgrLockFree(m), "C18.lock_released_after_connect")
 	vAssert(vMgrLockFree(m), "C16.lock_released_after_connect")
 	vAssertIf(p1.Port == 0, e1 == errInvalidPeerAddress, "C16.port_zero_is_invalid_peer")
+	if e1 == nil && vBool() {
+		// the first connection gets bound in between: it still counts as "pending or active"
+		vAssert(m.GetTCPConnection(user, id1) != nil, "C16.owner_can_bind_its_connection")
+	}
 	id2, e2 := m.CreateTCPConnection(a, p2)
 	vAssert(vMgrLockFree(m), "C18.lock_released_after_second_connect")
 	vAssert(vMgrLockFree(m), "C16.server_keeps_serving_after_duplicate_connect")
